@@ -137,11 +137,9 @@ ElemApplyTemplates::startElement(StylesheetExecutionContext&        executionCon
 {
     ElemTemplateElement::startElement(executionContext);
 
-    if (isDefaultTemplate() == false)
-    {
-        executionContext.pushCurrentMode(m_mode);
-    }
-
+    // The mode is pushed only after any xsl:with-param children
+    // have been instantiated, since they belong to the current
+    // template rule, and must be processed in its mode.
     executionContext.pushInvoker(this);
 
     return getFirstChildElemToExecute(executionContext);
@@ -200,6 +198,11 @@ ElemApplyTemplates::getNextChildElemToExecute(
             executionContext.pushContextMarker();
 
             executionContext.endParams();
+
+            if (isDefaultTemplate() == false)
+            {
+                executionContext.pushCurrentMode(m_mode);
+            }
     
             return findNextTemplateToExecute(executionContext);
 
@@ -233,6 +236,11 @@ ElemApplyTemplates::getFirstChildElemToExecute(
         executionContext.pushContextNodeList(*nodesToTransform);
         
         executionContext.pushContextMarker();
+
+        if (isDefaultTemplate() == false)
+        {
+            executionContext.pushCurrentMode(m_mode);
+        }
 
         return findNextTemplateToExecute(executionContext);
     }
